@@ -64,7 +64,7 @@ func c02Layout(tier string) c02Lay {
 	l.nExits = c02ExitExhaustive() + pick(tier, 250, 5000)
 	l.nEsc = c02EscExhaustive() + pick(tier, 200, 5000)
 	l.nDepth = c02DepthExhaustive() + pick(tier, 175, 6000)
-	l.nCallee = c02CalExhaustive() + pick(tier, 112, 4000)
+	l.nCallee = c02CalExhaustive() + pick(tier, 112, 2500)
 	l.total = l.nShapes + l.nBlocked + l.nTwin + l.nExits + l.nEsc + l.nDepth + l.nCallee
 	return l
 }
